@@ -120,6 +120,9 @@ type VM struct {
 	// with limited parallelism
 	authVerifiers workers.Workers
 
+	// acceptedBlockSub aggregates the accepted block subscriptions supplied via options
+	acceptedBlockSub event.Subscription[*chain.OutputBlock]
+
 	metrics *Metrics
 
 	network *p2p.Network
@@ -456,29 +459,19 @@ func (vm *VM) extractLatestOutputBlock(ctx context.Context) (*chain.OutputBlock,
 		return nil, fmt.Errorf("cannot extract latest output block from invalid state with last indexed height %d and state height %d", lastIndexedHeight, stateHeight)
 	}
 
+	blk, err := vm.chainStore.GetBlockByHeight(ctx, stateHeight)
+	if err != nil {
+		return nil, fmt.Errorf("failed to get block at latest state height %d: %w", stateHeight, err)
+	}
+	executionResults, executionResultsHeight, err := vm.extractLastExecutionResults()
+
 	// If the heights match exactly, we must have stored the last execution results
 	if lastIndexedHeight == stateHeight {
-		resultBytes, err := vm.executionResultsDB.Get([]byte{lastResultKey})
 		if err != nil {
-			return nil, fmt.Errorf("failed to fetch last execution results: %w", err)
-		}
-		if len(resultBytes) < consts.Uint64Len {
-			return nil, fmt.Errorf("invalid execution results length: %d", len(resultBytes))
-		}
-		executionResultsHeight, err := database.ParseUInt64(resultBytes[len(resultBytes)-consts.Uint64Len:])
-		if err != nil {
-			return nil, fmt.Errorf("failed to parse execution results height: %w", err)
+			return nil, err
 		}
 		if executionResultsHeight != stateHeight {
 			return nil, fmt.Errorf("execution results height %d does not match state height %d", executionResultsHeight, stateHeight)
-		}
-		blk, err := vm.chainStore.GetBlockByHeight(ctx, stateHeight)
-		if err != nil {
-			return nil, fmt.Errorf("failed to get block at latest state height %d: %w", stateHeight, err)
-		}
-		executionResults, err := chain.ParseExecutionResults(resultBytes[:len(resultBytes)-consts.Uint64Len])
-		if err != nil {
-			return nil, fmt.Errorf("failed to unmarshal execution results for last accepted block: %w", err)
 		}
 		return &chain.OutputBlock{
 			ExecutionBlock:   blk,
@@ -490,15 +483,43 @@ func (vm *VM) extractLatestOutputBlock(ctx context.Context) (*chain.OutputBlock,
 	// The chain index is ahead of the committed state: the node stopped while accepted blocks
 	// were still queued for processing. Return the block matching the committed state and let
 	// the snow package re-process the remaining accepted blocks on top of it.
-	blk, err := vm.chainStore.GetBlockByHeight(ctx, stateHeight)
-	if err != nil {
-		return nil, fmt.Errorf("failed to get block at latest state height %d: %w", stateHeight, err)
-	}
-	return &chain.OutputBlock{
+	lastOutput := &chain.OutputBlock{
 		ExecutionBlock:   blk,
 		View:             vm.stateDB,
 		ExecutionResults: &chain.ExecutionResults{},
-	}, nil
+	}
+	// The stored execution results are overwritten when the next block starts to be processed,
+	// which happens after the subscribers of this block were notified. If they still belong to
+	// this block, the node may have stopped between committing its state and notifying the
+	// subscribers: notify them (again) to guarantee at least once delivery.
+	if err == nil && executionResultsHeight == stateHeight {
+		lastOutput.ExecutionResults = executionResults
+		if err := vm.acceptedBlockSub.Notify(ctx, lastOutput); err != nil {
+			return nil, fmt.Errorf("failed to notify block at latest state height %d: %w", stateHeight, err)
+		}
+	}
+	return lastOutput, nil
+}
+
+// extractLastExecutionResults returns the last stored execution results and the height of
+// the block they belong to.
+func (vm *VM) extractLastExecutionResults() (*chain.ExecutionResults, uint64, error) {
+	resultBytes, err := vm.executionResultsDB.Get([]byte{lastResultKey})
+	if err != nil {
+		return nil, 0, fmt.Errorf("failed to fetch last execution results: %w", err)
+	}
+	if len(resultBytes) < consts.Uint64Len {
+		return nil, 0, fmt.Errorf("invalid execution results length: %d", len(resultBytes))
+	}
+	executionResultsHeight, err := database.ParseUInt64(resultBytes[len(resultBytes)-consts.Uint64Len:])
+	if err != nil {
+		return nil, 0, fmt.Errorf("failed to parse execution results height: %w", err)
+	}
+	executionResults, err := chain.ParseExecutionResults(resultBytes[:len(resultBytes)-consts.Uint64Len])
+	if err != nil {
+		return nil, 0, fmt.Errorf("failed to unmarshal execution results for last accepted block: %w", err)
+	}
+	return executionResults, executionResultsHeight, nil
 }
 
 func (vm *VM) initGenesisAsLastAccepted(ctx context.Context) (*chain.OutputBlock, error) {
@@ -595,6 +616,7 @@ func (vm *VM) applyOptions(o *Options) error {
 			ExecutionResults: b.ExecutionResults,
 		}
 	}, executedBlockSub)
+	vm.acceptedBlockSub = outputBlockSub
 	vm.snowApp.AddAcceptedSub(outputBlockSub)
 	vm.vmAPIHandlerFactories = o.vmAPIHandlerFactories
 	if o.builder {
